@@ -177,6 +177,66 @@ CHECKS["C18"] = dict(
     technique="Lean 4 proof (induction over call sequences) + exhaustive small-domain correspondence",
     design="5/C18")
 
+CHECKS["C08"] = dict(
+    text="Theorems (Props/C08.lean, C08Final.lean): for every well-typed positional list of the five documented lengths (1, 9, 13, 14, 18) with "
+         "ANY 32-bit registers, printable id strings and valid date-time, and every OBIS-tagged list, body and frame decoding return exactly "
+         "the expected dictionary: documented field per position / OBIS code, currents = register/1000 and voltages = register/10 as the "
+         "correctly rounded doubles, powers and energies = the register, text verbatim, manufacturer 'Kaifa'; for frames the APDU clock "
+         "unless the list carries its own clock element, which wins. tables_documented re-proves that the regenerated positional tables and "
+         "the scaling table are the documented ones. The float step is discharged by Props/C11Float.lean scaled_correct "
+         "(round(v*10^-s, s) = nearest double to v/10^s for all v < 2^32, proved about an exact integer model of binary64). "
+         "Correspondence: descriptors -> Lean spec encoder -> real decoders vs model vs expected dictionary, exact float comparison.",
+    note=NOTE_COMMON + "Modelled, not verified: construct combinators, CPython float arithmetic and round() (exact binary64 model tied by "
+         "correspondence on all 16-bit and sampled 32-bit registers).",
+    technique="Lean 4 proof (round trip over the two body grammars + exact binary64 rounding lemma) + spec-encoder-driven differential correspondence",
+    design="5/C08")
+CHECKS["C09"] = dict(
+    text="Theorems (Props/C09.lean, C09Final.lean): for every well-formed Kamstrup list (list-version string, OBIS-tagged elements in any "
+         "order with u16/u32 registers over their whole range, text, clock, ANY amount of null-data padding after ANY element, any meter "
+         "type number) body and frame decoding return exactly the expected dictionary: currents = register/100, or register/1000 when the "
+         "meter type number begins with 685, energies = register x 10, other registers unchanged, text verbatim, manufacturer 'Kamstrup', "
+         "frame clock = APDU date-time; tables_documented pins the regenerated scaling tables, meter-type OBIS code and CT prefix. Float step "
+         "as in C08. Correspondence: descriptors (incl. CT and non-CT meter types, padding, shuffled order) -> Lean spec encoder -> real decoders.",
+    note=NOTE_COMMON + "Modelled, not verified: construct combinators (GreedyRange/If/Peek), CPython float arithmetic and round().",
+    technique="Lean 4 proof (greedy element parser round trip, OBIS-text injectivity for the scaling lookup, exact binary64 lemma) + differential correspondence",
+    design="5/C09")
+CHECKS["C11"] = dict(
+    text="Theorems (Props/C11.lean, C11Float.lean): parse_block - every well-formed data block (several data sets per line, 1..n values, "
+         "units, blank lines, LF/CRLF) parses into exactly the transmitted data sets; parse_terminates and parse_cost(_tight) - the repaired "
+         "parser never exhausts the model's fuel and makes at most len(data) loop iterations; decode_name, decode_verbatim, "
+         "decode_plain_unit, decode_kilo_unit, decode_clock; readout_eq_content_plus_ident (same block through decode_p1_readout = content "
+         "decoding + the two identification fields); kilo_unit_bound - for every decimal with up to three fractional digits and product "
+         "E < 2^50, int(float(value)*1000) is E or E-1, never above (proved about the exact binary64 model, with a machine-checked witness "
+         "that E-1 occurs). Correspondence: grammar-generated blocks through real parse/decode/AutoDecoder paths vs model; the one-sided "
+         "bound is also evaluated on the real interpreter for a slice (quick) or all (thorough) of the 10^6 three-decimal values.",
+    note=NOTE_COMMON + "Modelled, not verified: str.splitlines/strip/find/split/lower, float(str), float multiplication, int(float), datetime().",
+    technique="Lean 4 proof (parser round trip with explicit fuel, exact binary64 error analysis in Mathlib rationals) + differential correspondence",
+    design="5/C11")
+CHECKS["C12"] = dict(
+    text="Theorems: generic (Props/C12.lean, any decoder list): step_total, none_iff_all_reject, result_from_accepting, prefers_previous, "
+         "first_in_cyclic_order, previous_unchanged_on_none, previous_names_last_success (induction over histories), all_caught (the except "
+         "clause read from the source catches every exception class), decoder_order_pin. Concrete (Props/C12Own.lean, the seven modelled "
+         "decoders): own_decoder_same_history; on a fresh AutoDecoder genuine Aidon, Kaifa and Kamstrup frames and P1 blocks are decoded by "
+         "their own decoder (earlier decoders in cyclic order provably reject: array-vs-structure tag, an OBIS octet >= 0x80 defeats both "
+         "Kaifa grammars, the ninth octet of ASCII text is no date-time start); message_eq_payload for HDLC and DLMS messages; empty payload "
+         "-> None. Correspondence: histories exhaustively to length 2 (3 thorough) over a 14-element pool and randomly to length 30, each "
+         "step judged against the seven individual real decoders; own-decoder checks incl. bare bodies; decode_message vs payload.",
+    note=NOTE_COMMON + "Partial: 'own decoder on a FRESH AutoDecoder' is proved for frames and P1; for bare notification bodies it is "
+         "covered by the correspondence only (it depends on the first OBIS code of the list).",
+    technique="Lean 4 proof (generic loop lemmas + concrete rejection lemmas) + history-exhaustive differential correspondence",
+    design="5/C12")
+CHECKS["C15"] = dict(
+    text="Theorems (Props/C15.lean): no_escape_payload / no_escape_message - for EVERY byte string, every message and every remembered "
+         "decoder the modelled AutoDecoder returns a dictionary or None (the decoders may fail with any of nine exception classes; the "
+         "except clause regenerated from the source catches all of them); p1_parse_terminates / p1_parse_linear - P1 parsing ends for every "
+         "input (unbalanced parentheses, trailing garbage) within len(data) loop iterations; kamstrup_greedy_fuel / kaifa_greedy_fuel - the "
+         "GreedyRange loops never depend on their fuel (every iteration consumes input); kamstrup_greedy_count. Correspondence: 40k-scale "
+         "mutation neighbourhood of genuine messages x every remembered decoder under a 2 s alarm vs the model (results AND remembered "
+         "index), individual decoders incl. exception classes, real parse loop vs model on ASCII fragments; time per octet recorded.",
+    note=NOTE_COMMON + "Partial: wall time / memory of the construct library are measured, not proved.",
+    technique="Lean 4 proof (totality via regenerated except clause, fuel-independence of every modelled loop) + mutation-based differential correspondence",
+    design="5/C15")
+
 NOT_YET = {}
 
 
